@@ -94,6 +94,9 @@ type Schema struct {
 	Types   []*TypeDef
 	Enums   []*EnumDef
 	OptKeys bool // KeysAreOptionalByDefault
+	// Legal: the generator built this schema from a fixed shape that is legal by construction
+	// (Check must accept it)
+	Legal bool
 }
 
 func (s *Schema) Type(name string) *TypeDef {
@@ -241,7 +244,7 @@ func (r *Rule) Clone() *Rule {
 }
 
 func (s *Schema) Clone() *Schema {
-	c := &Schema{Root: s.Root.Clone(), OptKeys: s.OptKeys}
+	c := &Schema{Root: s.Root.Clone(), OptKeys: s.OptKeys, Legal: s.Legal}
 	for _, t := range s.Types {
 		c.Types = append(c.Types, &TypeDef{Name: t.Name, Root: t.Root.Clone(), Regex: t.Regex})
 	}
